@@ -6,27 +6,30 @@
 (*         geometry) | "nogrid"                                             *)
 (*   units "none" | "m" | "km" | "s"                                        *)
 (*   mask  "flex" | "nomask" (Mask.NONE) | "M" | "N" (two different masks,  *)
-(*         each expressed in the layout of the info's own grid)             *)
+(*         each expressed in the layout of the info's own grid) | "E" (a    *)
+(*         fixed mask without any masked cell, as an all-False array) |     *)
+(*         "E0" (the same as numpy's nomask constant)                       *)
 (*   foo   further metadata entry: "absent" | "none" | "v" | "w"            *)
 (* A case is [po, ci, via]: producer output info, consumer input info, and  *)
 (* whether the link is direct or through a pass-through adapter.            *)
 EXTENDS FinamBase, TLC
 
 Info(t, g, u, m, f) == [time |-> t, grid |-> g, units |-> u, mask |-> m, foo |-> f]
-GridOK(i) == (i.mask \in {"M", "N"}) => i.grid \in {"g", "g2", "h"}     \* a fixed mask presupposes a structured grid
+GridOK(i) == (i.mask \in {"M", "N", "E"}) => i.grid \in {"g", "g2", "h"}     \* a fixed mask presupposes a structured grid
 PInfos == {i \in {Info(t, g, u, m, f) : t \in {"none", "t"}, g \in {"none", "g", "g2", "h", "nogrid"},
-                    u \in {"none", "m", "km", "s"}, m \in {"flex", "nomask", "M", "N"}, f \in {"absent", "none", "v"}} : GridOK(i)}
+                    u \in {"none", "m", "km", "s"}, m \in {"flex", "nomask", "M", "N", "E", "E0"}, f \in {"absent", "none", "v"}} : GridOK(i)}
 CInfos == {i \in {Info(t, g, u, m, f) : t \in {"none", "t"}, g \in {"none", "g", "g2", "h", "nogrid"},
-                    u \in {"none", "m", "km", "s"}, m \in {"flex", "nomask", "M", "N"}, f \in {"absent", "v", "w"}} : GridOK(i)}
+                    u \in {"none", "m", "km", "s"}, m \in {"flex", "nomask", "M", "N", "E", "E0"}, f \in {"absent", "v", "w"}} : GridOK(i)}
 
 SameLocations(a, b) == a = b \/ {a, b} = {"g", "g2"}
 Dim(u) == IF u = "s" THEN "time" ELSE "length"
-Specified(m) == m \in {"M", "N"}
+Specified(m) == m \in {"M", "N", "E", "E0"}
+NormMask(m) == IF m = "E0" THEN "E" ELSE m
 
 (* masks_compatible *)
 MasksCompatible(up, down) ==
   IF ~Specified(down) THEN (IF ~Specified(up) THEN down = "flex" \/ up = "nomask" ELSE down = "flex")
-  ELSE Specified(up) /\ up = down
+  ELSE Specified(up) /\ NormMask(up) = NormMask(down)
 
 (* Info.accepts(self, incoming); downstream: the incoming info is the consumer's request *)
 Accepts(self, inc, downstream) ==
@@ -62,7 +65,7 @@ UnitsConflict(po, ci) == po.units # "none" /\ ci.units # "none" /\ Dim(po.units)
 MaskConflict(po, ci) ==
   CASE ci.mask = "flex" -> FALSE
     [] ci.mask = "nomask" -> po.mask # "nomask"
-    [] OTHER -> po.mask # ci.mask
+    [] OTHER -> ~Specified(po.mask) \/ NormMask(po.mask) # NormMask(ci.mask)
 Unfillable(po, ci) == (po.grid = "none" /\ ci.grid = "none") \/ (po.time = "none" /\ ci.time = "none")
                       \/ (po.units = "none" /\ ci.units = "none") \/ (po.foo = "none" /\ ci.foo = "absent")
 
